@@ -1,0 +1,23 @@
+//! Verification hooks: public wrappers around crate-private items of MarlinPST13.
+//! Compiled only with `--cfg arkworks_rs_poly_commit_verif`; add-only.
+use super::{combinations::Combinations, MarlinPST13};
+use ark_ec::pairing::Pairing;
+use ark_poly::DenseMVPolynomial;
+use ark_std::ops::Index;
+#[cfg(not(feature = "std"))]
+use ark_std::vec::Vec;
+
+/// All values produced by the `Combinations` iterator for `(original, len)`.
+pub fn combinations(original: Vec<usize>, len: usize) -> Vec<Vec<usize>> {
+    Combinations::new(original, len).collect()
+}
+
+/// `MarlinPST13::divide_at_point`
+pub fn divide_at_point<E, P>(p: &P, point: &P::Point) -> Vec<P>
+where
+    E: Pairing,
+    P: DenseMVPolynomial<E::ScalarField> + Sync,
+    P::Point: Index<usize, Output = E::ScalarField>,
+{
+    MarlinPST13::<E, P>::divide_at_point(p, point)
+}
